@@ -9,7 +9,7 @@
    the route is sprint s = print_string (embed s) for a stratified [embed s] with den (embed s) = pyden s
    (SymbolicProof.embed_correct), then C05.  That ConstantAxis / AnonymousAxis arithmetic is TypeError is checked by
    the harness (the model has no such operands: [sym] cannot express them). *)
-From DL Require Import Base Lexer Parser Eval Shape Symbolic Grammar Denote ParseEval SymbolicProof SymbolicShape.
+From DL Require Import Base Lexer Parser Eval Shape Symbolic Grammar Denote ParseEval SymbolicProof SymbolicShape GenSrc SourceTie.
 
 
 Theorem C18_symbolic : forall s, sym_ok s ->
@@ -50,5 +50,11 @@ Example C18_shape_example :
   Forall axis_ok [SAStar "batch"; SAConst "rgb" 3; SAExpr (SBin MUL (SVar "h") (SBin DIV (SVar "w") (SLit 2))); SAExpr (SLit 4)].
 Proof. split; [reflexivity|]. repeat constructor; simpl; auto; lia. Qed.
 
+(* source tie: _PRECEDENCE, the constant folding formulas and the printed operators of the symbolic classes as
+   TRANSLATED from /repo's _symbolic_expressions.py on this run (coq/gen/GenSrc.v) are the model's *)
+Theorem C18_source_tables : symbolic_tables_agree.
+Proof. exact symbolic_tables. Qed.
+
 Redirect "C18.assumptions.1" Print Assumptions C18_symbolic.
+Redirect "C18.assumptions.3" Print Assumptions C18_source_tables.
 Redirect "C18.assumptions.2" Print Assumptions C18_shape.
